@@ -1,6 +1,7 @@
 package main
 
 import (
+	"go/token"
 	"go/types"
 	"strings"
 
@@ -418,6 +419,57 @@ func checkC15(c *Check) {
 			ok = waited && reaches
 		}
 		c.Ob("R3", "on shutdown all children are stopped and awaited before the parent is notified", run.Pos(), ok, "")
+	}
+	// a child is forgotten only when it reports its own shutdown: the subscription set is what the shutdown waits on, so
+	// every removal from it is in the select case that received from the unsubscribe channel
+	{
+		unsubIdx := -1
+		for k, stt := range sel.States {
+			if stt.Dir == types.RecvOnly && strings.HasSuffix(nrm(Sym(stt.Chan)), "b.unsubch") {
+				unsubIdx = k
+			}
+		}
+		ub := caseBlock(unsubIdx)
+		ndel := 0
+		okDel := true
+		where := ""
+		for _, fn := range fns {
+			eachInstr(fn, func(i ssa.Instruction) {
+				ci, isC := i.(ssa.CallInstruction)
+				if !isC || calleeFull(ci) != "builtin.delete" || !strings.HasSuffix(nrm(Sym(ci.Common().Args[0])), "b.subscriptions") {
+					return
+				}
+				ndel++
+				// the removed child is the one just received from the unsubscribe channel
+				key := ci.Common().Args[1]
+				fromUnsub := false
+				switch k := key.(type) {
+				case *ssa.UnOp:
+					if k.Op == token.ARROW && strings.HasSuffix(nrm(Sym(k.X)), "b.unsubch") {
+						fromUnsub = true
+					}
+				case *ssa.Extract:
+					if ks, isSel := k.Tuple.(*ssa.Select); isSel && ks == sel && ub != nil && domLift(home, ub, ci) {
+						// index of the value received in the unsubscribe case
+						r := 0
+						for kk, stt := range sel.States {
+							if stt.Dir != types.RecvOnly {
+								continue
+							}
+							if kk == unsubIdx && k.Index == 2+r {
+								fromUnsub = true
+							}
+							r++
+						}
+					}
+				}
+				if !fromUnsub {
+					okDel = false
+					where = l.Pos(ci.Pos())
+				}
+			})
+		}
+		c.Ob("R3", "a subscription is removed only when that child reported its shutdown", sel.Pos(), okDel && ndel >= 1 && unsubIdx >= 0, "a child is dropped from the subscription set at "+where+" without having reported: the shutdown no longer waits for it and the child blocks forever on its report")
 	}
 	// ---- R4 the chain-event publisher hands events to the bus in the order it received them: between taking a result
 	// off the tendermint subscription and bus.Publish nothing is deferred to another goroutine
